@@ -18,7 +18,7 @@
    trailers_ok - Proofs/EndToEndHeaders.v, Proofs/EndToEndInst.v), field sections below 2^26 bytes, body pieces are
    byte strings below 2^62 bytes; the receiving application's calls have completed (that they do complete is C06).
    This same pipeline is the model column of the correspondence run against the real client and server. *)
-From H3V Require Import Base.Bytes Base.BytesLemmas Model.Varint Model.HttpCrate Model.Headers Spec.WellFormed Proofs.HeadersProofs
+From H3V Require Import Base.Bytes Base.BytesLemmas Gen.GenMsgPath Model.Varint Model.HttpCrate Model.Headers Spec.WellFormed Proofs.HeadersProofs
   Model.EndToEnd Spec.EndToEndSpec Model.EndToEndRef Model.EndToEndLayers Model.EndToEndH3
   Spec.EndToEndStream Proofs.EndToEndProofs Proofs.EndToEndHeaders Proofs.EndToEndWire Proofs.EndToEndFrames
   Proofs.EndToEndRefProofs Proofs.EndToEndReader Proofs.EndToEndQpack Proofs.EndToEndC03 Proofs.EndToEndInst.
@@ -339,6 +339,16 @@ Proof. exact split_point_irrelevant. Qed.
    take_chunk / remaining / chunk / advance, Cursor) are anchored to the source by translate/gen_buflist.py *)
 Theorem C01_transport_buffer_taken_whole : forall segments, pushed segments = concat segments.
 Proof. exact pushed_is_whole. Qed.
+(* h3's own default for the field-section limit (what an endpoint announces and enforces when nothing is configured, and
+   what it assumes of a peer whose SETTINGS have not arrived) is the largest varint, so no field section the theorems
+   speak about is refused under the defaults; the value is read from config.rs on every run, and the bodies of
+   Frame::encode / payload / FrameType::encode / encode_header / coding.rs / the SendStream delegations / the Huffman
+   encoder / Settings::default / From<&frame::Settings> / SharedState::settings / client send_request, Clone, Drop,
+   wait_idle, poll_close, new, build / server new, accept, build are anchored whole by translate/gen_msgpath.py *)
+Theorem C01_default_limit_is_unbounded :
+  GenMsgPath.default_max_field_section_size = 2 ^ 62 - 1 /\
+  forall fs, section_fits fs -> section_size fs <= GenMsgPath.default_max_field_section_size.
+Proof. split; [exact default_limit_unbounded|exact default_limit_admits]. Qed.
 Theorem C01_layout_reads_back :
   forall hb pieces tb g,
     len hb < 2 ^ 62 -> Forall (fun p => len p < 2 ^ 62) pieces -> match tb with Some b => len b < 2 ^ 62 | None => True end ->
@@ -397,3 +407,4 @@ Print Assumptions C01_field_section_roundtrip.
 Print Assumptions C01_h3_reader_any_interleaving.
 Print Assumptions C01_split_point_irrelevant.
 Print Assumptions C01_transport_buffer_taken_whole.
+Print Assumptions C01_default_limit_is_unbounded.
